@@ -52,6 +52,8 @@ pub fn positions() -> Vec<u64> {
     for e in [0u64, 1, 63, 64, 65, 1000] {
         v.push(u64::MAX - e);
     }
+    // batches that start 1..15 blocks below the 2^32 carry, and below 2^31 (sign bit)
+    v.extend([64 * ((1u64 << 32) - 5), 64 * ((1u64 << 32) - 11) + 1, 64 * ((1u64 << 31) - 3), 64 * ((1u64 << 31) - 9) - 1]);
     v.sort();
     v.dedup();
     v
@@ -440,6 +442,11 @@ pub fn replay(v: &Value) -> bool {
         "model_checking",
     );
     let mut p = 0u64;
+    let clone_ok = |rd: &blake3::OutputReader| subject::reader_bytes(&rd.clone()) == subject::reader_bytes(rd);
+    if !clone_ok(&rd) {
+        println!("violation: a clone of the fresh reader differs from it");
+        return true;
+    }
     for o in v["ops"].as_array().unwrap().iter().filter_map(XOp::from_json) {
         let prev = rd.clone();
         match step(&mut rd, p, o, &mut oracle, &mut rep) {
@@ -458,6 +465,10 @@ pub fn replay(v: &Value) -> bool {
                     }
                 }
                 p = np;
+                if !clone_ok(&rd) {
+                    println!("violation: after {:?} a clone of the reader differs from it", o);
+                    return true;
+                }
             }
             Err((k, e, ob)) => {
                 println!("violation {} at {:?}: expected {}, observed {}", k, o, e, ob);
